@@ -29,7 +29,7 @@ GATE = "none"
 class Ctx:
     """Per-thread-of-control observation record (one per task, one for the main thread)."""
 
-    __slots__ = ("reads", "toks", "gated", "obs", "draws", "states")
+    __slots__ = ("reads", "toks", "gated", "obs", "draws", "states", "watch")
 
     def __init__(self):
         self.reads = 0
@@ -38,6 +38,7 @@ class Ctx:
         self.obs = None
         self.draws = []
         self.states = None
+        self.watch = None  # [live object, snapshot, first difference seen] while a compile is in progress
 
 
 class IdRecorder:
@@ -71,6 +72,9 @@ class IdRecorder:
         self.log.append((serial, out))
         if ctx is not None:
             ctx.draws.append(out)
+            w = ctx.watch
+            if w is not None and w[2] is None and w[0] != w[1]:
+                w[2] = len(ctx.draws)  # the compile argument differs from its snapshot at this draw
         return out
 
 
